@@ -522,7 +522,8 @@ class Repo:
             body = [s for s in f.node.body if not (isinstance(s, ast.Expr) and isinstance(s.value, ast.Constant))]
             # plain assignments may fetch the receiver first: `rec = stream.get_records('MODEL')[0]; return rec.m()`
             if not body or not isinstance(body[-1], ast.Return) or not isinstance(body[-1].value, ast.Call) \
-                    or not all(isinstance(s, (ast.Assign, ast.AnnAssign)) for s in body[:-1]) or len(body) > 3:
+                    or not all(isinstance(s, (ast.Assign, ast.AnnAssign, ast.Import, ast.ImportFrom)) for s in body[:-1]) \
+                    or len(body) > 3:
                 return f
             fn = body[-1].value.func
             tgt = None
@@ -530,6 +531,14 @@ class Repo:
                 r = self.resolve(f.module, fn.id)
                 if r and r[0] == 'func':
                     tgt = r[1]
+                else:
+                    # imported inside the wrapper (`from .x import g; return g(..)`)
+                    for imp in body[:-1]:
+                        if isinstance(imp, ast.ImportFrom) and any((a_.asname or a_.name) == fn.id for a_ in imp.names):
+                            real = next(a_.name for a_ in imp.names if (a_.asname or a_.name) == fn.id)
+                            m2 = self.modules.get(self._abs_from(f.module, imp))
+                            if m2 is not None and dict.__contains__(m2.functions, real):
+                                tgt = dict.__getitem__(m2.functions, real)
             elif isinstance(fn, ast.Attribute):
                 cands = [c.methods[fn.attr] for c in self.all_classes() if dict.__contains__(c.methods, fn.attr)]
                 if len(cands) == 1:
